@@ -26,10 +26,17 @@ pub fn show_diag(d: &Diagnostic) -> String {
     s
 }
 
-pub fn analyze_cmd(texts: &[String]) -> String {
+fn file_id(names: &[String], i: usize) -> FileId {
+    match names.get(i) {
+        Some(n) => FileId::from_string(n),
+        None => FileId::from_string(&format!("f{}.st", i)),
+    }
+}
+
+pub fn analyze_cmd(texts: &[String], names: &[String]) -> String {
     let mut libs = Vec::new();
     for (i, t) in texts.iter().enumerate() {
-        let fid = FileId::from_string(&format!("f{}.st", i));
+        let fid = file_id(names, i);
         match parse_program(t, &fid, &ParseOptions::default()) {
             Ok(lib) => libs.push(lib),
             Err(d) => return format!("ERR PARSE{}:{}", i, show_diag(&d)),
@@ -45,10 +52,10 @@ pub fn analyze_cmd(texts: &[String]) -> String {
     }
 }
 
-pub fn project_cmd(texts: &[String]) -> String {
+pub fn project_cmd(texts: &[String], names: &[String]) -> String {
     let mut p = FileBackedProject::new();
     for (i, t) in texts.iter().enumerate() {
-        let fid = FileId::from_string(&format!("f{}.st", i));
+        let fid = file_id(names, i);
         p.change_text_document(&fid, t.clone());
     }
     match p.semantic() {
@@ -63,15 +70,15 @@ pub fn project_cmd(texts: &[String]) -> String {
 /// `projedit f1hex f2hex ... | i:hex i:hex ...`: the in-memory project first holds the texts before `|` and is
 /// analysed, then every edit `i:hex` replaces file `i` (change_text_document) and the project is analysed again.
 /// Answer: the result of the last analysis, in the format of `project` (C03/C11: it must equal a fresh project's).
-pub fn projedit_cmd(initial: &[String], edits: &[(usize, String)]) -> String {
+pub fn projedit_cmd(initial: &[String], edits: &[(usize, String)], names: &[String]) -> String {
     let mut p = FileBackedProject::new();
     for (i, t) in initial.iter().enumerate() {
-        let fid = FileId::from_string(&format!("f{}.st", i));
+        let fid = file_id(names, i);
         p.change_text_document(&fid, t.clone());
     }
     let mut last = p.semantic().map_err(|ds| ds.iter().map(show_diag).collect::<Vec<_>>().join(" "));
     for (i, t) in edits {
-        let fid = FileId::from_string(&format!("f{}.st", i));
+        let fid = file_id(names, *i);
         p.change_text_document(&fid, t.clone());
         last = p.semantic().map_err(|ds| ds.iter().map(show_diag).collect::<Vec<_>>().join(" "));
     }
